@@ -104,14 +104,17 @@ func (e *Engine) incCheck(assumes []Term) string {
 		for _, ax := range axs {
 			if !is.sentAx[sym+"|"+ax] {
 				is.sentAx[sym+"|"+ax] = true
-				fmt.Fprintf(&b, "(assert %s)\n", ax)
+				if !strings.Contains(ax, "(forall") && !strings.Contains(ax, "(exists") {
+					fmt.Fprintf(&b, "(assert %s)\n", ax)
+				}
 			}
 		}
 	}
 	u.mu.Unlock()
 	b.WriteString("(push)\n")
 	for _, a := range assumes {
-		if a.S != "true" {
+		// quantified facts are dropped: fewer assumptions keep "unsat" sound for pruning
+		if a.S != "true" && !strings.Contains(a.S, "(forall") && !strings.Contains(a.S, "(exists") && !e.u.mentionsQuantified(a.S) {
 			fmt.Fprintf(&b, "(assert %s)\n", a.S)
 		}
 	}
